@@ -113,10 +113,13 @@ def check_spline(case, ctx):
     if not kappa <= KAPPA_MAX:
         ctx.skip("ill_conditioned")
     sp = quiet(vd.Spline) if md is None else quiet(vd.Spline, mindist=md_abs)
+    d_arg = d
+    if d.size and np.all(d == np.round(d)) and np.all(np.abs(d) < 2.0**53) and vbuild.plain_flag(case):
+        d_arg = d.astype("int64")  # whole-number data handed over with an integer dtype
     if case.get("weighted"):
-        quiet(sp.fit, (e, n), d, 1.0 + (np.arange(d.size) % 5).reshape(d.shape))
+        quiet(sp.fit, (e, n), d_arg, 1.0 + (np.arange(d.size) % 5).reshape(d.shape))
     else:
-        quiet(sp.fit, (e, n), d)
+        quiet(sp.fit, (e, n), d_arg)
     pred = np.asarray(sp.predict((e, n)))
     ctx.check(pred.shape == d.shape, "prediction shape %s, data shape %s", pred.shape, d.shape)
     scale = float(np.max(np.abs(d)))
@@ -125,7 +128,7 @@ def check_spline(case, ctx):
     if not err <= tol:
         raise Violation("Spline(mindist=%r) fitted to %d distinct points does not reproduce its data: max error %.3e, tolerance 64*kappa*eps*max|d| = %.3e (kappa %.3e, max|d| %.3e)"
                         % (md, d.size, err, tol, kappa, scale))
-    ctx.label("kappa1e%d" % int(math.log10(max(kappa, 1))), "mindist" if md else "nomindist", "n>=80" if d.size >= 80 else "n<80", "weighted" if case.get("weighted") else "unweighted")
+    ctx.label("kappa1e%d" % int(math.log10(max(kappa, 1))), "int_data" if d_arg is not d else "float_data", "mindist" if md else "nomindist", "n>=80" if d.size >= 80 else "n<80", "weighted" if case.get("weighted") else "unweighted")
     ctx.nt(d.size >= 4 and nonconstant(case["data"][0]))
 
 
